@@ -174,6 +174,63 @@ def report(run, stream, items, res):
                       found_input=(code == 1) or any1)
 
 
+def failing_point(out):
+    """(ok, (entry index, module index) | None) of the single logged call of a job"""
+    c = out["calls"][0]
+    if c["ok"]:
+        return True, None
+    log = c.get("log") or []
+    if log and log[-1][2] == "start" and log[-1][0] in out["passes"]:
+        return False, (out["passes"].index(log[-1][0]), log[-1][1])
+    return False, None
+
+
+def failure_points(run, seed, quick, faulty, valid):
+    """C08E stream: to_proto(t) alone in a fresh process under logging subclasses of the default passes; the (entry, module)
+    whose body raised against the first failure point the machine of Model/C08PassFail.v meets when it is run with the failure
+    points of the concrete bodies (Model/C07EConcrete.v:failure_points) as its oracle."""
+    from . import c02
+    jobs, meta = [], []
+    for d in faulty + valid:
+        tops = sorted({d["top"], len(d["mods"]) - 1} | ({core.rng(seed, "C07E", "fp-top", len(jobs)).randrange(len(d["mods"]))}))
+        for t in tops:
+            jobs.append(dict(design=d, ops=[["P", [t]]], log=True))
+            meta.append((d, t))
+    outs = core.run_worker_sharded("c07e", jobs, common=dict(mode="fork"))
+    cases = []
+    for (d, t), o in zip(meta, outs):
+        if o.get("crash") or o.get("build"):
+            raise RuntimeError(f"C07E worker: {json.dumps(o)[:400]}")
+        ok, pt = failing_point(o)
+        cpt = "None" if pt is None else f"(Some ({pt[0]}%nat, {pt[1]}%nat))"
+        cases.append(f"{{| f_design := {c02.c_design(d)};\n  f_xinfo := {c01e.c_xinfo(named(d))}; f_top := {t}%nat; "
+                     f"f_ok := {cbool(ok)}; f_point := {cpt} |}}")
+    bad = dict(core.coq_eval_cases("C07", "c07e_points", IMPORTS, "c08e_case", cases, "run_cases chk_c08e", chunk=25))
+    n = len(cases)
+    by_entry = {}
+    for o in outs:
+        ok, pt = failing_point(o)
+        key = "returned" if ok else ("outside a pass body" if pt is None else o["passes"][pt[0]])
+        by_entry[key] = by_entry.get(key, 0) + 1
+    run.stream("failure-points", n, len({json.dumps([d, t], sort_keys=True) for (d, t), o in zip(meta, outs) if not o["calls"][0]["ok"]}),
+               agree=sum(1 for i in range(n) if bad.get(i, 0) == 0), outside_modelled_fragment=sum(1 for c in bad.values() if c == 5),
+               implementation_outcome=by_entry,
+               rule="one to_proto(module) call per case, fresh process, logging subclasses of the default passes; non-trivial = the call raised; "
+                    "distinct by (design, top)",
+               compared="the (pass entry, module) whose body raised == the first failure point met by Model/C08PassFail.v (policy repaired) "
+                        "run with Model/C07EConcrete.v:failure_points of the design as its failure oracle (Corr/C07E.v:chk_c08e)")
+    order = sorted((i for i, c in bad.items() if c not in (0, 5)), key=lambda i: len(json.dumps(meta[i][0])))
+    for i in order[:2]:
+        d, t = meta[i]
+        case = dict(design=d, top=t)
+        run.violation(f"C08E:{bad[i]}:" + json.dumps(case, sort_keys=True),
+                      f"the pass body that raises in the implementation is not the failure point of the concrete model: implementation "
+                      f"{failing_point(outs[i])}, passes {outs[i]['passes']}",
+                      dict(kind="tie-broken", stream="failure-points", case=case, impl=[{k: v for k, v in c.items() if k != 'pkg'} for c in outs[i]["calls"]],
+                           failing_cases=len(order)), found_input=False)
+    return n, sum(1 for i in range(n) if bad.get(i, 0) == 0)
+
+
 def run_tie(run, tier, seed):
     quick = tier == "quick"
     t0 = time.time()
@@ -266,5 +323,8 @@ def run_tie(run, tier, seed):
                     "non-trivial = all (each history calls into the faulty module and into modules that do not contain it)",
                compared="as concrete-manager; a call raises iff a module at or below its tops holds an error in the manager (Corr/C07E.v:call_ok)")
     report(run, "concrete-manager-faulty", fitems, fres)
-    run.coverage["c07e_tie"] = dict(histories=nh + len(fres), agree=sum(1 for r in res + fres if r[3] == 0), wall=round(time.time() - t0, 1))
+    # ---------------------------------------------------------------- C08E: which (pass entry, module) body raises
+    pres = failure_points(run, seed, quick, [m for m, _ in fitems], [d for d, _ in items[: (10 if quick else 60)]])
+    run.coverage["c07e_tie"] = dict(histories=nh + len(fres), agree=sum(1 for r in res + fres if r[3] == 0),
+                                    failure_point_cases=pres[0], failure_points_agree=pres[1], wall=round(time.time() - t0, 1))
     run.coverage["traces_validated_against_impl"] = run.coverage.get("traces_validated_against_impl", 0) + nh + len(fres)
